@@ -75,7 +75,7 @@ func (g *Rng) raceScenario(i int) raceScenario {
 	for range sc.ops {
 		sc.offsUs = append(sc.offsUs, g.Intn(3000))
 	}
-	if g.Chance(1, 5) {
+	if g.Chance(1, 3) {
 		sc.timeout = 40 + g.Intn(60)
 	}
 	return sc
@@ -258,6 +258,16 @@ func runRaceScenario(sc raceScenario, idx int) (status string, eff *raceEff) {
 	case <-opsDone:
 	case <-time.After(20 * time.Second):
 		return "ops-timeout", eff
+	}
+
+	// with an idle timeout configured, let at least one accept deadline expire after the operations
+	// (and their connections) have ended: the timeout branch of the accept loop runs, and may end serving
+	if sc.timeout > 0 {
+		select {
+		case <-served:
+			return status, eff
+		case <-time.After(time.Duration(sc.timeout+40) * time.Millisecond):
+		}
 	}
 
 	// end of scenario: shut down until the serving call returns
